@@ -21,6 +21,7 @@ C_PATCHES = {"CTERM", "NEUTRAL-CTERM", "3TERM"}
 
 
 def check(prog, rep):
+    from . import shared
     t = Tables(prog.root)
     model = Model(prog, t)
     rep.explanation = (
@@ -236,8 +237,32 @@ def check(prog, rep):
            f"single-nucleotide strand: lookup name has both suffixes; {len(bad_na)} cell(s) not parameterised, "
            f"e.g. {bad_na[:3]}" if bad_na else "all single-nucleotide cells full", "pdb2pqr/na.py (Nucleic.set_state)")
 
+    shared.rule_patch_isolation(prog, rep, "R6")
+    shared.rule_no_mutation_while_iterating(prog, rep, "R7", ["biomolecule.py::Biomolecule.set_termini", "biomolecule.py::Biomolecule.assign_termini",
+                                                               "biomolecule.py::Biomolecule.__init__", "biomolecule.py::Biomolecule.update_bonds"])
+    shared.rule_ter_chain_count(prog, rep, "R8")
+
 
 def check_guard(prog, r4):
+    _check_guard(prog, r4)
+    # the guard must come after every statement that assigns parameters (force field AND ligand block)
+    nt = prog.func("main.py", "non_trivial").node
+    gidx = None
+    last_assign = -1
+    for i, st in enumerate(nt.body):
+        txt = U(st)
+        if isinstance(st, ast.If) and any(isinstance(s, ast.Raise) for s in st.body) and "charge_err" in U(st.test):
+            gidx = i
+        if ".ffcharge =" in txt or "apply_force_field(" in txt or "assign_parameters(" in txt:
+            last_assign = i
+    r4.add("guard|after-all-assignments", gidx is not None and gidx > last_assign,
+           f"the integrality guard is statement {gidx} of non_trivial, the last statement assigning charges is statement {last_assign}: "
+           + ("every assigned charge is checked" if gidx is not None and gidx > last_assign else
+              "charges assigned after the check (ligand parameters) are never verified, and a non-integral result is written"),
+           f"pdb2pqr/main.py:{nt.lineno} (non_trivial)")
+
+
+def _check_guard(prog, r4):
     nt = prog.func("main.py", "non_trivial")
     consts = prog.module_constants("config.py")
     body = nt.node.body
